@@ -1,6 +1,7 @@
 package abci
 
 import (
+	"strings"
 	"bytes"
 	"encoding/binary"
 	"fmt"
@@ -325,6 +326,26 @@ func TestC16(t *testing.T) {
 			}
 			// block 1: T, then duplicates in the same block
 			n.BeginBlock(chain.Block{DT: time.Second, Proposer: chain.Addr(w.Nodes[0])})
+			if rapid.SampledFrom([]int{0, 0, 1}).Draw(rt, "anteFailureBeforeT") == 1 {
+				// T shares its block with an earlier transaction that the ante handler rejects (somebody else's send with a
+				// garbage signature): such results are not indexed, T's must be
+				bad := funded[rapid.IntRange(0, len(funded)-1).Draw(rt, "badSender")]
+				bmsg := &nodesTypes.MsgSend{FromAddress: chain.Addr(bad), ToAddress: to, Amount: sdk.NewInt(3)}
+				// (correctly signed, but its fee is below the required fee or its memo is too long: rejected by the ante handler
+				// with an auth-codespace error)
+				bopts := chain.TxOpts{ChainID: w.Spec.ChainID, Msg: bmsg, Fee: sdk.NewCoins(sdk.NewCoin(sdk.DefaultStakeDenom, sdk.NewInt(chain.DefaultFee))), Entropy: entropy + 1, Signer: bad, IncludePubKey: true}
+				if rapid.Bool().Draw(rt, "badByFee") {
+					bopts.Fee = sdk.NewCoins(sdk.NewCoin(sdk.DefaultStakeDenom, sdk.NewInt(1)))
+				} else {
+					bopts.Memo = strings.Repeat("m", 300)
+				}
+				btx := chain.SignTxOpts(bopts)
+				rb := n.DeliverTx(btx)
+				c.Opf("ante-rejected tx before T in the same block -> %d/%s", rb.Code, rb.Codespace)
+				if rb.Code != 0 && rb.Codespace == "auth" {
+					c.Label("ante-failure-before-T-in-its-block")
+				}
+			}
 			r0 := n.DeliverTx(T)
 			if r0.Code != 0 {
 				// e.g. the sender cannot cover amount+fee: no effect to replay; still resubmissions must not succeed later either
